@@ -125,24 +125,27 @@ func withInvalid(m map[string]bool) map[string]bool {
 var (
 	allClaims  = set("p:A", "p:B", "q:A", "q:B")
 	profFull   = profile{"full", withInvalid(set("A", "B", "A'", "A^", "nil", "A~")), allClaims}
+	profTotals = profile{"total-family", withInvalid(set("A", "A'", "A+256", "A+255", "A+64k", "A+2^24", "A+2^31")), set("p:A")}
 	profFull3  = profile{"full-no-root-sibling", withInvalid(set("A", "B", "A'", "nil", "A~")), allClaims}
 	profEquiv  = profile{"equivocation", withInvalid(set("A", "B", "nil")), allClaims}
-	profIDs    = profile{"id-variants", withInvalid(set("A", "A'", "A^", "A~", "nil")), set("p:A")}
+	profIDs    = profile{"id-variants", withInvalid(set("A", "A'", "A^", "A+256", "A~", "nil")), set("p:A")}
 	profSimple = profile{"simple", withInvalid(set("A", "B", "A'", "nil")), set("p:A", "q:B")}
 	profEquiv1 = profile{"equivocation-1", withInvalid(set("A", "B", "nil")), set("p:A", "q:B")}
-	profIDsQ   = profile{"id-variants-q", withInvalid(set("A", "A'", "A^", "nil")), set("p:A")}
-	profIDs0   = profile{"id-variants-0", withInvalid(set("A", "A'", "A^")), set("p:A")}
+	profIDsQ   = profile{"id-variants-q", withInvalid(set("A", "A'", "A^", "A+256")), set("p:A")}
+	profIDs0   = profile{"id-variants-0", withInvalid(set("A", "A'", "A+256")), set("p:A")}
 )
 
 func profilesFor(n int, thorough, quickVec bool, typ kproto.SignedMsgType) []profile {
 	if dbg := os.Getenv("C02_PROFILE"); dbg != "" {
-		for _, p := range []profile{profFull, profFull3, profEquiv, profIDs, profSimple, profEquiv1, profIDs0} {
+		for _, p := range []profile{profFull, profTotals, profFull3, profEquiv, profIDs, profSimple, profEquiv1, profIDs0} {
 			if p.name == dbg {
 				return []profile{p}
 			}
 		}
 	}
 	switch {
+	case n == 2:
+		return []profile{profFull, profTotals}
 	case n <= 2:
 		return []profile{profFull}
 	case n == 3 && thorough:
@@ -356,15 +359,15 @@ func main() {
 		}
 	}
 	r.Set("rule", "E2: for every power vector x vote type x alphabet profile the full reachable graph of (real VoteSet, reference tally) under the profile's tokens, to fixpoint. "+
-		"Block ids: A and its three single-component siblings B (other block hash), A' (other part-set total), A^ (other part-set root hash), and nil. Tokens per validator: votes A, B, A', A^, nil, A~ (A re-signed with another timestamp); every token stays enabled, so exact duplicates are included; "+
+		"Block ids: A and its three single-component siblings B (other block hash), A' (other part-set total), A^ (other part-set root hash), the further total siblings A+256, A+255, A+64k, A+2^24, A+2^31 (part-set total of A plus that much), and nil. Tokens per validator: votes A, B, A', A^, nil, A~ (A re-signed with another timestamp); every token stays enabled, so exact duplicates are included; "+
 		"invalid votes (index out of range, index/address mismatch, impersonation of another index, outsider address, foreign key, wrong height, round, type, chain id, flipped signature bit, 64-byte signature); "+
 		"SetPeerMaj23 of peers p,q for A,B. Profiles: full = everything; full-no-root-sibling = full without A^; equivocation = {A,B,nil}+4 claims; id-variants = {A,A',A^,A~,nil}+p:A; simple = {A,B,A',nil}+p:A,q:B; "+
-		"equivocation-1 = {A,B,nil}+p:A,q:B; id-variants-q = {A,A',A^,nil}+p:A; id-variants-0 = {A,A',A^}+p:A; all with every invalid kind (see voteset_jobs_detail for which profile ran on which vector). "+
+		"equivocation-1 = {A,B,nil}+p:A,q:B; id-variants-q = {A,A',A^,A+256}+p:A; id-variants-0 = {A,A',A+256}+p:A; total-family (2 validators) = {A,A',A+256,A+255,A+64k,A+2^24,A+2^31}+p:A; id-variants also carries A+256; all with every invalid kind (see voteset_jobs_detail for which profile ran on which vector). "+
 		"States are de-duplicated on a digest of all mutable VoteSet fields + the reference first-vote vector; a successor whose offered-signature set is a superset of an explored one is subsumed "+
 		"(all oracles are antitone in it); successors of a violating transition are not expanded. The 3-4 invalid kinds that are only refused by signature verification are executed in every state "+
 		"for sets of <= 2 (thorough: <= 3) validators and otherwise in the first state (BFS order) of every distinct context (addressed validator's first vote and signed set, peer claims on the path, reported majority). "+
-		"MakeCommit -> VerifyCommit runs in every precommit state with a non-nil majority. E3: flags^n x 12 (quick: 10) size/height/block-id/round variants (argument id and commit id replaced by each sibling) into VerifyCommit "+
-		"(8 entry kinds in quick, 14 in thorough). One violation signature is kept per (oracle, canonical set of token kinds): the first in (vector, type, length, token order). All counts are measured.")
+		"MakeCommit -> VerifyCommit runs in every precommit state with a non-nil majority. E3: flags^n x 19 (quick: 16; the VerifyCommit argument is replaced by every sibling incl. the whole total family) size/height/block-id/round variants (argument id and commit id replaced by each sibling) into VerifyCommit "+
+		"(8 entry kinds in quick, 15 in thorough). One violation signature is kept per (oracle, canonical set of token kinds): the first in (vector, type, length, token order). All counts are measured.")
 	stop()
 	r.Finish()
 }
